@@ -157,11 +157,11 @@ class Continuous2D(Stage):
                                        inputs[self.policy[0] + '_grid'], inputs[self.policy[1] + '_grid'])
     
     def backward_step_shock(self, ss, shocks, precomputed):
-        space1, space2, i1, i2, grid1, grid2, f = precomputed
+        space1, space2, i1, i2, grid1, grid2, pi1, pi2, f = precomputed
         outputs = f.diff(shocks)
         dpi1 = -outputs[self.policy[0]] / space1
         dpi2 = -outputs[self.policy[1]] / space2
-        return outputs, ShockedPolicyLottery2D(i1, dpi1, i2, dpi2, grid1, grid2)
+        return outputs, ShockedPolicyLottery2D(i1, dpi1, i2, dpi2, grid1, grid2, pi1, pi2)
 
     def precompute(self, ss, ss_lawofmotion):
         i1 = ss_lawofmotion.i1.reshape(ss_lawofmotion.shape)
@@ -169,8 +169,11 @@ class Continuous2D(Stage):
         grid1 = ss_lawofmotion.grid1
         grid2 = ss_lawofmotion.grid2
 
+        pi1 = ss_lawofmotion.pi1.reshape(ss_lawofmotion.shape)
+        pi2 = ss_lawofmotion.pi2.reshape(ss_lawofmotion.shape)
+
         return (grid1[i1 + 1] - grid1[i1], grid2[i2 + 1] - grid2[i2],
-                i1, i2, grid1, grid2, self.f.differentiable(ss))
+                i1, i2, grid1, grid2, pi1, pi2, self.f.differentiable(ss))
 
 
 class ExogenousMaker:
